@@ -7,7 +7,7 @@ TAGS = ['status', 'cancel', 'taskret', 'tfin', 'caught', 'spawn', 'cleanup']
 RULE = ('(a) scope trees: nested (until-)scopes (depth <= 3, <= 3 children each, volatile or delayed), bodies and children that '
         'sleep/raise (regular and privileged types)/return, cancels from inside and from a separate activity after t time units '
         'and k postponements, deadlines and flags on a coarse time grid, everything wrapped in handlers that log what they catch; '
-        '(b) random valid whole-API programs (no usage errors); (c) one task cancelled repeatedly with different tokens / closed and then cancelled, before its first turn or later, awaited by several activities; non-trivial = a task was cancelled or its status probed')
+        '(b) random valid whole-API programs (no usage errors); (c) one task cancelled repeatedly with different tokens / closed and then cancelled, before its first turn or later, awaited by several activities; (d) payloads that swallow their own cancellation (`except CancelTask`) or clean up with awaits, cancelled 1-3 times at different times; non-trivial = a task was cancelled or its status probed')
 
 
 def nontrivial(impl):
@@ -42,7 +42,38 @@ def repeated_cancel(rng):
     return ['scenario', ['debug', 1], ['start', 0], ['flags', 1], ['locks', 0], ['roots'] + roots]
 
 
-SOURCES = [scopesuite.scope_tree, scopesuite.valid_scenario, scopesuite.cancel_cleanup, repeated_cancel]
+def suppressed_cancel(rng):
+    """the payload reacts to its own cancellation (`except CancelTask`) around some of its steps and carries on, or cleans up
+    with awaits; it is cancelled 1-3 times with different tokens at different times.  A cancellation the task survived
+    is not its outcome: awaiters get the value, or the token of a cancellation that was not swallowed"""
+    from fractions import Fraction as F
+    tok = rng.sample(range(1, 10), 3)
+    steps = []
+    for k in range(rng.randint(1, 3)):
+        step = ['sleep', rng.choice([1, 2, 3])]
+        r = rng.random()
+        if r < 0.6:
+            steps.append(['try', ['body', step], ['handler', ['pats', 'cancelTask'], ['body', ['log', 60 + k]]]])
+        elif r < 0.8:
+            steps.append(['finally', ['body', step], ['cleanup', ['log', 70 + k], ['sleep', rng.choice([F(1, 2), 1])], ['log', 75 + k]]])
+        else:
+            steps.append(step)
+    task = ['prog', ['log', 1]] + steps + [['log', 2], ['ret', 7]]
+    body = [['spawn', 0, 0, None, None, False, task]]
+    t = 0
+    for k in range(rng.randint(1, 3)):
+        body += [['sleep', rng.choice([F(1, 2), 1, F(3, 2), 2])]] + [['sleep', 0]] * rng.randint(0, 1) + [['cancel', 0, tok[k]]]
+    body += [['status', 0]]
+    main = ['prog', ['try', ['body', ['scope', 0, ['none']] + body], ['handler', ['pats', 'concurrent', 'anyException'], ['body', ['log', 20]]]],
+            ['status', 0]]
+    watcher = lambda i, d: ['prog', ['sleep', d], ['try', ['body', ['awaittask', 0], ['log', 30 + i]],
+                                                     ['handler', ['pats', 'taskCancelled', 'taskClosed', 'concurrent', 'anyException'], ['body', ['log', 40 + i]]]],
+                            ['status', 0]]
+    roots = [main] + [watcher(i, d) for i, d in enumerate(rng.sample([0, F(1, 2), 1, 2, 3, 5, 9], rng.randint(1, 3)))]
+    return ['scenario', ['debug', 1], ['start', 0], ['flags', 1], ['locks', 0], ['roots'] + roots]
+
+
+SOURCES = [scopesuite.scope_tree, scopesuite.valid_scenario, scopesuite.cancel_cleanup, repeated_cancel, suppressed_cancel]
 
 
 def run(tier, seed, drv):
